@@ -18,6 +18,8 @@ pub struct Profile {
     pub std_only: bool,
     /// restrict radices / keep text ops frequent etc.
     pub text_heavy: bool,
+    /// generator / deserialiser arrivals (need the optional features of the library)
+    pub arrivals: bool,
 }
 
 pub const FAMILIES: [&str; 12] = [
@@ -306,7 +308,7 @@ impl<'a> Gen<'a> {
     }
 
     pub fn construct_u(&mut self, d: i128) -> Step {
-        if self.rng.chance(1, 8) {
+        if self.p.arrivals && self.rng.chance(1, 8) {
             return self.arrival("u", d);
         }
         let v = self.val();
@@ -388,7 +390,7 @@ impl<'a> Gen<'a> {
     }
 
     pub fn construct_i(&mut self, d: i128) -> Step {
-        if self.rng.chance(1, 8) {
+        if self.p.arrivals && self.rng.chance(1, 8) {
             return self.arrival("i", d);
         }
         let v = self.val();
@@ -481,6 +483,10 @@ impl<'a> Gen<'a> {
             5 => 64 * self.rng.range(1, 6) as i128,
             6 => 32 * self.rng.range(1, 9) as i128 + self.rng.below(2) as i128,
             7 if unsafe_ && t >= 6 => -(self.rng.range(1, 100) as i128),
+            8 if self.rng.chance(1, 3) => {
+                // amounts far beyond any value's length (shl of a non-zero value this far is skipped by the envelope)
+                *self.rng.pick(&[(1i128 << 32) - 1, 1 << 32, (1 << 32) + 1, (1 << 31) - 1, u64::MAX as i128, i64::MAX as i128, u32::MAX as i128 * 64])
+            }
             _ => self.rng.below(300) as i128,
         };
         // keep the amount representable in the type (u8: <=255, i8: <=127)
@@ -562,7 +568,12 @@ impl<'a> Gen<'a> {
                 let s = match self.rng.below(8) {
                     0 | 1 => {
                         let t = self.rng.below(6) as i128;
-                        let k = *self.rng.pick(&[0i128, 1, 2, 3, 5, 8, 17, 64]);
+                        let k = if self.rng.chance(1, 12) {
+                            // exponents at the edges of the exponent type (executed only for bases 0 and 1)
+                            *self.rng.pick(&[u32::MAX as i128, u64::MAX as i128, -1i128, (u32::MAX as i128) + 1, 255, 256, 65535, 65536])
+                        } else {
+                            *self.rng.pick(&[0i128, 1, 2, 3, 5, 8, 17, 64])
+                        };
                         Step::new(&format!("{pre}.pow")).i("t", t).i("k", k).i("f", self.rng.below(4) as i128).i("mv", mv).i("d", d).i("a", a)
                     }
                     2 if u => Step::new("u.powbig").i("f", self.rng.below(4) as i128).i("d", d).i("a", a).i("b", b),
